@@ -323,14 +323,14 @@ struct Slot {
     char pin[512];
 };
 struct DistinctTable {
-    static constexpr size_t N = 1u << 22;  // 4M entries, 32 MiB
+    static constexpr size_t N = 1u << 24;  // 16M entries, 128 MiB virtual (MAP_NORESERVE)
     std::atomic<uint64_t> count;
     std::atomic<uint64_t> overflow;
     std::atomic<uint64_t> tab[N];
     void insert(uint64_t k) {
         k |= 1;
         if (count.load(std::memory_order_relaxed) > N * 3 / 4) { overflow.store(1); return; }
-        size_t i = (size_t)((k * 0x9e3779b97f4a7c15ULL) >> 42) & (N - 1);
+        size_t i = (size_t)((k * 0x9e3779b97f4a7c15ULL) >> 40) & (N - 1);
         for (;;) {
             uint64_t cur = tab[i].load(std::memory_order_relaxed);
             if (cur == k) return;
@@ -681,6 +681,7 @@ static int run_batch() {
         cov["simulated_time"] = "logical steps only (seam events); the library has no clock";
         Json cj = Json::obj(), fj = Json::obj(), pj = Json::obj();
         std::vector<std::string> zero_probes;
+        for (auto &pn : H->probes(O.prop)) if (!R.counters.count("probe." + pn)) R.counters["probe." + pn] = 0;
         for (auto &p : R.counters) {
             if (p.first.rfind("fault.", 0) == 0) fj[p.first.substr(6)] = (long long)p.second;
             else if (p.first.rfind("probe.", 0) == 0) { pj[p.first.substr(6)] = (long long)p.second; if (!p.second) zero_probes.push_back(p.first.substr(6)); }
